@@ -86,7 +86,7 @@ def to_model(code, atoms):
             c = i.argval
             if c is True or c is False: emit(i, ('loadBool', c))
             elif c is None: emit(i, ('loadNone',))
-            elif isinstance(c, types.CodeType): emit(i, ('load', atoms('<genexpr:%d>' % inner.index(c))))
+            elif isinstance(c, types.CodeType): emit(i, ('load', atoms(('<lambda:%d>' if c.co_name == '<lambda>' else '<genexpr:%d>') % inner.index(c))))
             else: emit(i, ('loadLit', atoms(const_atom(c)), bool(c)))      # a constant: its truth value is known (CPython folds tests on it)
         elif n == 'RETURN_CONST':
             c = i.argval
@@ -295,7 +295,7 @@ class AstModel:
             a = n.args
             if a.defaults or a.kw_defaults or a.vararg or a.kwarg or a.kwonlyargs or getattr(a, 'posonlyargs', None): raise Unsupported('lambda with defaults / star parameters')
             k = self.number(n)             # the function object is an opaque value; its (code, body) pair is checked separately
-            return ['atom', self.atoms('<genexpr:%s>' % k)]
+            return ['atom', self.atoms('<lambda:%s>' % k)]
         if isinstance(n, ast.GeneratorExp):
             k = self.number(n)             # the function object is loaded before its first iterable is evaluated
             it = E(n.generators[0].iter)
@@ -422,7 +422,7 @@ def real_run(code, kind, assign, none_candidates=()):
     """execute the code object for real -> (outcome, questions asked).  outcome: ('ret', tag) | ('pass', loops, [tag]|[], depth) | ('exc', name)"""
     env = Env(assign, none_candidates)
     env.arities = loop_arities(code); env.main_code = code; env.foreign = False
-    for k, c in enumerate(code_consts(code)): env.code_names[c] = '<genexpr:%d>' % k
+    for k, c in enumerate(code_consts(code)): env.code_names[c] = ('<lambda:%d>' if c.co_name == '<lambda>' else '<genexpr:%d>') % k
     g = {'__builtins__': {}}
     for n in code.co_names: g[n] = env.make(('atom', n))
     closure = tuple(types.CellType(env.make(('atom', n))) for n in code.co_freevars) or None
@@ -467,6 +467,8 @@ def subst_items(tag, sub, assign=None, top=True, nonec=None):
         elif tag[0] == 'app':
             args = tuple(subst_items(a, sub, assign, True, nonec) for a in tag[2]); f = tag[1]
             native = [is_native(a) for a in args]
+            if f.startswith('call') and args and isinstance(args[0], tuple) and args[0][0] == 'atom' and args[0][1].startswith('<lambda:'):
+                raise SkipValidation('a nested lambda called in place is run by CPython itself')
             if f == 'call' and len(args) == 2 and isinstance(args[0], tuple) and args[0][0] == 'atom' and args[0][1].startswith('<genexpr:') and (is_native(args[1]) or args[1] is None):
                 raise SkipValidation('a nested generator over a CPython object gets CPython\'s own iterator')
             if f == 'bin:%' and const_of(args[0])[0] and isinstance(const_of(args[0])[1], (str, bytes)):
